@@ -192,6 +192,10 @@ CHAIN_ADD = (' Cross-format chains (x-<a>-<b>-*): models inside both fragments a
              'that the model THAT reader built is the source of this format\'s cycles.')
 ADDENDA = {p: EDIT_ADD for p in ('C03', 'C10', 'C11', 'C12', 'C13', 'C14', 'C15', 'C16', 'C17', 'C19', 'C20')}
 ADDENDA.update({p: EDIT_ADD + CHAIN_ADD for p in ('C01', 'C05', 'C06', 'C07', 'C08')})
+ADDENDA['C13'] += (' Counts beyond 2^31: for roots owning relations over 33-128 leaf children the estimate is logged as decimal digits and '
+                   'compared with FMBig!WideCount, exact arithmetic on digit sequences specified in TLA+ (lemma LBig).')
+ADDENDA['C03'] += (' Lemma L1 (the six relation predicates, as the library writes them, partition every (children, min, max) and select '
+                   'FMBase!Kind) is proved for all integers with the TLA+ proof system (spec/proofs/FMKindProofs.tla), checked by tlapm in this run.')
 
 REASON_TODO = 'check not built yet (build in progress; see DESIGN.md section 12)'
 
